@@ -51,9 +51,13 @@ def cases(draw, tier="quick"):
         # make runs unique (sequential) for 'aligned'
         v = lab["spec"]["v"]
         seen, prev, out, pool = set(), object(), [], list(lab["pool"])
-        extra = iter([x for x in ([100, 101, 102, 103, 104, 105, 106, 107] if lab["kind"] == "int" else
-                                   ([100.5, 101.5, 102.5, 103.5, 104.5, 105.5] if lab["kind"] == "float" else
-                                    ["p", "q", "r", "s", "t", "u", "v", "w"])) if x not in pool] * 4)
+        # an unbounded supply of fresh labels (a bounded one repeated itself: harness bug found by `vp check`, seed 1)
+        if lab["kind"] == "int":
+            extra = iter(range(100, 100 + n + 1))
+        elif lab["kind"] == "float":
+            extra = iter([100.5 + k for k in range(n + 1)])
+        else:
+            extra = iter([f"p{k:02d}" for k in range(n + 1)])
         cur = None
         for x in v:
             if x != prev:
